@@ -40,7 +40,7 @@ def main():
     targets = P.get("lean_targets", [])
     build_ok, build_txt, build_errs = (True, "", [])
     if targets:
-        build_ok, build_txt, build_errs = lake_build(targets + ["judge"], log, clean=(tier == "thorough" and os.environ.get("VERIF_NO_CLEAN") != "1"))
+        build_ok, build_txt, build_errs = lake_build(targets + ["judge"], log, clean=(os.environ.get("VERIF_CLEAN") == "1"))   # lake's builds are trace-based; a from-scratch rebuild of the whole library (~25 min) on request only
     if targets:
         obligations.append({"name": "lake build " + " ".join(targets), "kind": "theorem", "ok": build_ok,
                             "detail": "" if build_ok else "\n".join("%s:%d %s" % (e["file"], e["line"], e["msg"]) for e in build_errs[:10])})
